@@ -682,6 +682,7 @@ def assemble(repo, spec, rows=None, canary=None, opts=None):
     stats.update(external_derive=0, external_body=0, external=0, dropped_use=0, dropped_test_mod=0,
                  fns_total=0, fns_verified=0, fns_trusted=0, fns_external=0, ret_named=0, instruction_copies=0)
     out = []; linemap = []; units = []
+    lost_anchors = {}
     bind = {}
     for name, rmod, fn, line in reg:
         bind.setdefault((rmod, fn.split('::')[-1]), []).append(name)
@@ -710,6 +711,22 @@ def assemble(repo, spec, rows=None, canary=None, opts=None):
         copies = []   # (text, linemap) of instruction copies
 
         def handle_fn(it, ctx, name=None, path_override=None):
+            """A lost anchor / unresolvable placeholder in ONE function's overlay must not make every property undecided: the function is
+            re-emitted without overlay as external_body (recorded in lost_anchors; the engine treats it like an untranslatable unit)."""
+            ed = ctx['ed']
+            n_edits = len(ed.e); n_units = len(units); n_marks = len(ctx['marks']); saved = dict(stats)
+            try:
+                return handle_fn_inner(it, ctx, name=name, path_override=path_override)
+            except ToolError as x:
+                base = (path_override or fn_path(mod, it)).split('@')[0]
+                if base in spec.external or base in spec.ignore: raise
+                del ed.e[n_edits:]; del units[n_units:]; del ctx['marks'][n_marks:]
+                stats.clear(); stats.update(saved)
+                spec.external[base] = 'AUTO: ' + str(x)[:200]
+                lost_anchors[base] = str(x)[:300]
+                return handle_fn_inner(it, ctx, name=name, path_override=path_override)
+
+        def handle_fn_inner(it, ctx, name=None, path_override=None):
             src = ctx['src']; mask = ctx['mask']; ed = ctx['ed']
             path = path_override or fn_path(mod, it)
             line = src.count('\n', 0, it['kw']) + 1 + ctx['line_off']
@@ -742,6 +759,10 @@ def assemble(repo, spec, rows=None, canary=None, opts=None):
                 stats['fns_verified'] += 1
             text = ''
             row = ROWS.get(name) if name else None
+            if kind == 'external':
+                # a body Verus does not check gets NO contract: an `ensures` on an external_body function would be an assumption
+                # (only `@@ trusted` functions carry assumed contracts, and those are listed in every evidence file)
+                row = None; e = None
             if row is not None:
                 P = first_param(src, it)
                 if P is None: raise ToolError('instruction %s: cannot find the state parameter of %s' % (name, path))
@@ -976,7 +997,7 @@ def assemble(repo, spec, rows=None, canary=None, opts=None):
             else:
                 units[stack.pop()].gen_hi = i + 1
     return dict(text=full, units=units, linemap=linemap, stats=stats, registry=reg,
-                unbound_rows=unbound_rows, names_without_row=names_without_row)
+                unbound_rows=unbound_rows, names_without_row=names_without_row, lost_anchors=lost_anchors)
 
 
 HEADER = '''// GENERATED by /verif/tools/gen.py from /repo/src/push/*.rs -- do not edit.
